@@ -1,0 +1,26 @@
+//! Hooks for property C24 (side-metadata tables of one configuration never alias).
+
+use crate::policy::space::Space;
+use crate::util::metadata::side_metadata::SideMetadataSpec;
+use crate::util::metadata::MetadataSpec;
+use crate::vm::VMBinding;
+use crate::MMTK;
+
+/// One space's side metadata context: `(space name, global specs, local specs)`.
+pub type SpaceSpecs = (String, Vec<SideMetadataSpec>, Vec<SideMetadataSpec>);
+
+/// The side metadata context of every space of the plan of `mmtk`, in `for_each_space` order.
+pub fn space_side_metadata_specs<VM: VMBinding>(mmtk: &MMTK<VM>) -> Vec<SpaceSpecs> {
+    let mut out = vec![];
+    mmtk.get_plan()
+        .for_each_space(&mut |space: &dyn Space<VM>| {
+            let (g, l) = space.verif_side_metadata_specs();
+            out.push((space.get_name().to_string(), g, l));
+        });
+    out
+}
+
+/// `crate::util::metadata::extract_side_metadata`.
+pub fn extract_side_metadata(specs: &[MetadataSpec]) -> Vec<SideMetadataSpec> {
+    crate::util::metadata::extract_side_metadata(specs)
+}
